@@ -61,7 +61,7 @@ func (c *merkleCircuit) Define(api frontend.API) error {
 // merkleReplay builds an honest opening with the native reference hash, then checks that the real
 // gadget accepts it and rejects the three standard corruptions. Returns a description of the first
 // disagreement ("" if the real code behaves like the reference).
-func merkleReplay(r *Run, kc *ref.BN128Consts, width, nsib int, seed int64) string {
+func merkleReplay(r *Run, kc *ref.BN128Consts, width, nsib int, seed int64, zeroSib ...int) string {
 	clearHooks()
 	os.Setenv("USE_BIT_DECOMPOSITION_RANGE_CHECK", "true")
 	defer os.Unsetenv("USE_BIT_DECOMPOSITION_RANGE_CHECK")
@@ -81,6 +81,12 @@ func merkleReplay(r *Run, kc *ref.BN128Consts, width, nsib int, seed int64) stri
 	bref := make([]*ref.N, nsib)
 	for i := range sib {
 		sib[i] = rnd("sib", i, R)
+		for _, z := range zeroSib {
+			// value profile taken from the solver's counterexample: this sibling is 0
+			if z == i {
+				sib[i] = new(big.Int)
+			}
+		}
 		sref[i] = rb.ConstR(sib[i])
 		bits[i] = new(big.Int).And(rnd("bit", i, P), big.NewInt(1))
 		bref[i] = rb.Const(bits[i])
@@ -163,6 +169,17 @@ func merkleReplay(r *Run, kc *ref.BN128Consts, width, nsib int, seed int64) stri
 		}
 	}
 	return ""
+}
+
+// merkleSibAtom reports whether the model key names the input atom of sibling i.
+func merkleSibAtom(key string, i int) bool {
+	tag := fmt.Sprintf("sib%d", i)
+	j := strings.Index(key, tag)
+	if j < 0 {
+		return false
+	}
+	rest := key[j+len(tag):]
+	return rest == "" || rest[0] < '0' || rest[0] > '9'
 }
 
 func runC12(r *Run) {
@@ -274,6 +291,30 @@ func runC12(r *Run) {
 					ob.OnFail = func(res smt.Result) *Violation {
 						if msg := merkleReplay(r, kc, wd, ns, r.Seed); msg != "" {
 							return &Violation{What: name + ": " + msg, Replay: map[string]any{"kind": "merkle", "width": wd, "siblings": ns, "seed": r.Seed}, Outcome: "gnark test engine on the real gadget with a concrete tree built with the native reference hash"}
+						}
+						// the permutation is uninterpreted in the query, so the model's digests cannot be replayed
+						// as they are; what carries over is its value profile: which siblings it sets to 0. The
+						// tree is rebuilt with the native hash and those siblings at 0 (then each position alone).
+						var prof [][]int
+						var zs []int
+						for i := 0; i < ns; i++ {
+							for k, v := range res.Model {
+								if v != nil && v.Sign() == 0 && merkleSibAtom(k, i) {
+									zs = append(zs, i)
+									break
+								}
+							}
+						}
+						if len(zs) > 0 {
+							prof = append(prof, zs)
+						}
+						for i := 0; i < ns; i++ {
+							prof = append(prof, []int{i})
+						}
+						for _, z := range prof {
+							if msg := merkleReplay(r, kc, wd, ns, r.Seed, z...); msg != "" {
+								return &Violation{What: fmt.Sprintf("%s: with the siblings at positions %v equal to 0 (profile of the solver's counterexample): %s", name, z, msg), Replay: map[string]any{"kind": "merkle", "width": wd, "siblings": ns, "seed": r.Seed, "zero_siblings": z}, Outcome: "gnark test engine on the real gadget with a concrete tree built with the native reference hash"}
+							}
 						}
 						return nil
 					}
